@@ -257,6 +257,31 @@ def t_to_async_iter(E):
                                  attrs={'q': o})
                 if name == 'get':
                     return VStub('Queue.get', lambda E_, a, k: aio.mk_awaitable('chan_get'))
+                if name in ('qsize', 'empty'):
+                    def qsize(E_, a, k):
+                        """how much has been handed over and not yet taken: a race with the worker -- anything from 0
+                        to all of it; a lower bound for the only consumer until it takes something"""
+                        n = E.fresh('qsize', I)
+                        E.assume(z3.And(n >= 0, n <= z3.Length(E.w['chan']) - E.w['deq']))
+                        st['avail_lb'] = n
+                        return VInt(n) if name == 'qsize' else VBool(n == 0)
+                    return VStub('Queue.' + name, qsize)
+                if name == 'get_nowait':
+                    def get_nowait(E_, a, k):
+                        """the next handed-over element without waiting, QueueEmpty if there is none right now"""
+                        chan, d = E.w['chan'], E.w['deq']
+                        there = E.fresh('something_is_queued', z3.BoolSort())
+                        E.assume(z3.Implies(there, d < z3.Length(chan)))
+                        if st.get('avail_lb') is not None:
+                            E.assume(z3.Implies(st['avail_lb'] > 0, there))
+                        if not E.branch(there):
+                            E.throw('QueueEmpty', origin='get_nowait')
+                        E.assume(z3.Implies(z3.And(d >= 0, d < z3.Length(S_.src)),
+                                            z3.And(chan[d] == S_.src[d], S_.src[d] != DONE)))
+                        E.w['deq'] = d + 1
+                        st['avail_lb'] = None
+                        return VVal(chan[d])
+                    return VStub('Queue.get_nowait', get_nowait)
             if isinstance(o, Obj) and o.cls == 'ExecFuture' and name == 'done':
                 # the worker hands the sentinel over and only then finishes: whether the future is already done
                 # when the consumer looks is a race, either answer is possible
@@ -288,6 +313,7 @@ def t_to_async_iter(E):
             if not E.branch(d < z3.Length(chan)):
                 raise PathEnd()
             E.w['deq'] = d + 1
+            st['avail_lb'] = None
             return VVal(chan[d])
         aio.AWAIT['chan_get'] = chan_get
 
@@ -449,6 +475,10 @@ def t_to_sync_iter(E):
                         raise PyExc(exc)
                     return NONE
                 return VStub('Future.result', result)
+            if isinstance(o, Obj) and o.cls == 'ConcFuture2' and name in ('done', 'running'):
+                # the worker hands the end marker over and only then finishes; the consumer may look at any moment:
+                # either answer is possible while elements are still to be taken
+                return VStub('Future.' + name, lambda E_, a, k: VBool(E.fresh('worker_future_' + name, z3.BoolSort())))
             if isinstance(o, VVal) and o.t.sort() == LoopS and name == 'close':
                 def close(E_, a, k):
                     st.setdefault('closed_loops', []).append(o)
@@ -586,7 +616,30 @@ def install_c17(E, st, Qn):
         return evaluate(E, st, cf.fields['coro'], cf.fields['loop'].t, node)
     aio.AWAIT['wrapped'] = aw_wrapped
 
+    # frame: the table of per-loop locks belongs to _get_loop_lock (and to the finaliser it registers); that function's
+    # contract RELIES on entries of live loops staying put -- two callers must never get two different locks for one
+    # loop -- so nobody else may store into, pop from or clear it
+    lock_table = Obj('LockTableOfGetLoopLock')
+    Bn[('module', MOD, '_LOOP_LOCKS')] = lock_table
+
+    def table_touched(how, node):
+        E.oblige('%s/frame.per_loop_lock_table_is_changed_only_by__get_loop_lock' % st['top'], z3.BoolVal(False),
+                 props={'C17'}, detail='%s on _LOOP_LOCKS for a loop that is alive: the next caller creates a SECOND lock '
+                                       'for the same loop and runs it while its current runner still holds the first' % how)
+        raise PathEnd()
+    prev_set = Bn.get('__setitem__')
+
+    def table_setitem(E_, o, k, v, node):
+        if o is lock_table:
+            table_touched('an item assignment', node)
+        if prev_set is not None:
+            return prev_set(E_, o, k, v, node)
+        raise Unsupported('subscript store', node)
+    Bn['__setitem__'] = table_setitem
+
     def attr(E_, o, name, node):
+        if o is lock_table and name in ('pop', 'clear', 'popitem', 'update', 'setdefault', '__delitem__', '__setitem__'):
+            return VStub('dict.' + name, lambda E_, a, k: table_touched('%s()' % name, node))
         if isinstance(o, VVal) and o.t.sort() == LoopS:
             if name == 'is_running':
                 def is_running(E_, a, k):
@@ -847,7 +900,9 @@ def t_loop_in_thread(E):
         E.oblige(Qn + '/ensures.returns_a_stop_function', z3.BoolVal(isinstance(stopper, VFunc)))
         if not isinstance(stopper, VFunc) or sub_ is None:
             return
-        # the stop function
+        # the stop function -- called at any later time: what loop_in_thread saw running may have been another caller's
+        # run_until_complete that has ended since, with this thread's run_forever() still to come
+        E.w['running'] = E.fresh('running', z3.ArraySort(LoopS, B))
         E.call(stopper, [], {})
         sched = st.get('scheduled', [])
         ok = len(sched) == 1 and isinstance(sched[0][0], VStub) and sched[0][0].name == 'loop.stop' and \
